@@ -244,7 +244,11 @@ def _member(a, b, text):
             v = b.d[k]
             if isinstance(v, PV): return pv_apply(lambda x: not (x.__class__.__name__ == "_Missing"), v)
             return True
-        return Opaque("open dict membership") if b.open else False
+        if b.open: return Opaque("open dict membership")
+        # a dictionary filled under symbolic keys (out[i] = ... in a loop): whether another symbolic key is among them is not decided here
+        if any(isinstance(k2, tuple) and k2 and k2[0] in ("sym", "pv") for k2 in b.d) and isinstance(k, tuple) and k and k[0] in ("sym", "pv"):
+            return Opaque("membership of a symbolic key in a dictionary filled under symbolic keys")
+        return False
     if isinstance(b, Obj):
         h = getattr(b, "hook", None)
         if h:
